@@ -319,6 +319,12 @@ def c18_cases(ids: IdGen, tier: str):
                 c = Case(ids.next(), d, cfg, "plain", {"part": "c18", "c18": group},
                          probe_lo=lo, probe_hi=hi)
                 cases.append(c)
+                if oi == 0 or tier != "quick":
+                    # a second, all-table configuration: index arithmetic in the repr's own width
+                    t2 = {"as_str": "table", "from_str": "table", "FromStr": "table",
+                          "iter": "table" if (si + oi) % 2 else "next_and_back"}
+                    cases.append(Case(ids.next(), d, legalize(cfg_all(t2), d), "plain", {"part": "c18", "c18": group},
+                                      probe_lo=lo, probe_hi=hi))
     return cases
 
 
